@@ -1,6 +1,7 @@
 import ShuttleModel.Kernel
 import ShuttleModel.Rng
 import ShuttleModel.Sched.Dfs
+import ShuttleModel.Sched.Pct
 import ShuttleModel.Generated
 /-
   `Runner::run` (shuttle-engine/src/runtime/runner.rs) and the built-in schedulers as instances of
@@ -105,5 +106,19 @@ def dfsScheduler : FullScheduler DfsFull where
     nextU64 := fun s =>
       if !s.allowRandom then (.error "requested random data from DFS scheduler with allow_random_data = false", s)
       else let (v, d) := s.data.nextU64; (.ok v, { s with data := d }) }
+
+/-! ### PCT (shuttle-schedulers/src/pct.rs; state and transitions in Sched/Pct.lean) -/
+
+def pctScheduler : FullScheduler Pct.PctState where
+  newExec s := match Pct.newExecution s with
+    | .none => .none
+    | .some seed s' => .some seed s'
+    | .panic msg => .panic msg
+  sched := {
+    nextTask := fun s views cur y =>
+      match Pct.nextTask s (views.map (·.id)) cur y with
+      | .ok c s' => (.choose (some c), s')
+      | .panic msg => (.panic msg, s)
+    nextU64 := fun s => let (v, s') := Pct.nextU64 s; (.ok v, s') }
 
 end ShuttleModel
